@@ -75,6 +75,11 @@ def execute(run, cov, log):
         sessions.execute(run, cov, log)
 
 
+def preload():
+    from sim import seams
+    seams.preload()
+
+
 def shrink(run):
     if run.get('layer') == 'L2':
         return drivertrace.shrink(run)
